@@ -142,6 +142,7 @@ class Interp(OpsMixin, BuiltinsMixin):
             except extract.ExtractError:
                 owner = None
         self.func_stack.append((info.qualname.split(".")[-1], info, first, owner))
+        self.fn_nodes = [fn]
         outcome = None
         from .ops import _has_yield
 
@@ -459,7 +460,7 @@ class Interp(OpsMixin, BuiltinsMixin):
         env.set(st.name, SClosure(st, env, name=st.name))
 
     def st_While(self, st, env):
-        key = self.loop_key()
+        key = self.loop_key(st)
         spec = self.c.loops.get(key)
         if spec is None or spec.unroll:
             limit = (spec.unroll if spec else None) or 4096
@@ -481,10 +482,30 @@ class Interp(OpsMixin, BuiltinsMixin):
                     spec.ghost_step(self, env, n - 1)
         self.invariant_loop(st, env, spec, key, cond=lambda: self.truth(self.eval(st.test, env)))
 
-    def loop_key(self):
+    def loop_key(self, st=None):
+        """'<function name>#<ordinal>': ordinal of the loop statement in SOURCE order within its innermost function
+        (independent of the path taken)"""
         fname = self.func_stack[-1][0]
+        fnode = self.fn_nodes[-1] if getattr(self, "fn_nodes", None) else None
+        if st is not None and fnode is not None:
+            cache = self.__dict__.setdefault("_loop_ord", {})
+            if id(fnode) not in cache:
+                order = {}
+
+                def walk(node):
+                    for child in ast.iter_child_nodes(node):
+                        if isinstance(child, (ast.FunctionDef, ast.Lambda, ast.ClassDef)):
+                            continue
+                        if isinstance(child, (ast.While, ast.For)):
+                            order[id(child)] = len(order)
+                        walk(child)
+
+                walk(fnode)
+                cache[id(fnode)] = order
+            k = cache[id(fnode)].get(id(st))
+            if k is not None:
+                return f"{fname}#{k}"
         k = self.loop_counts.get((fname, self.call_depth), 0)
-        # ordinal counts loops in execution order of *first encounter* per function name
         self.loop_counts[(fname, self.call_depth)] = k + 1
         return f"{fname}#{k}"
 
@@ -501,6 +522,14 @@ class Interp(OpsMixin, BuiltinsMixin):
         mods = spec.modifies if spec.modifies is not None else sorted(_assigned_names(st.body))
         pre = {}
         for name in mods:
+            if "." in name:
+                # ghost heap location: field of a record held in a variable (e.g. the view of a hash object)
+                oname, fld = name.split(".", 1)
+                if env.has(oname):
+                    o = self.resolve(env.lookup(oname))
+                    if isinstance(o, SObj) and fld in o.fields:
+                        o.fields[fld] = self.havoc_like(o.fields[fld], f"{key}.{name}")
+                continue
             if not env.has(name):
                 continue
             cur = env.lookup(name)
@@ -573,13 +602,13 @@ class Interp(OpsMixin, BuiltinsMixin):
         it = self.resolve(self.eval(st.iter, env))
         items = self.static_items(it)
         if items is None:
-            key = self.loop_key()
+            key = self.loop_key(st)
             spec = self.c.loops.get(key)
             if spec is None:
                 raise Unsupported(f"for-loop {key} over a symbolic iterable needs an invariant")
             self.symbolic_for(st, env, it, spec, key)
             return
-        key = self.loop_key()
+        key = self.loop_key(st)
         spec = self.c.loops.get(key)
         cut = spec.ghost_step if spec is not None and callable(spec.ghost_step) else None
         broke = False
